@@ -36,6 +36,7 @@ TReset ==
     /\ bud' = [join |-> BJoin, rejoin |-> BRejoin, leave |-> BLeave, dup |-> BDup, err |-> BErr,
                unknown |-> BUnknown, abort |-> BAbort, sendfail |-> BSendFail]
     /\ stuckH' = 0 /\ jmuStuck' = {} /\ cmuStuck' = FALSE
+    /\ cmu' = "" /\ jmu' = [j \in Jobs |-> ""] /\ hpend' = NoComp
     /\ hist' = << >>
     /\ Adv
 
@@ -91,8 +92,8 @@ Silent ==
        \/ (LGen /\ njobs' = njobs)
     /\ UNCHANGED i
 
-TNext == TReset \/ TEnqueue \/ TJobStart \/ TJobReject \/ TCompleteOk \/ TCompleteErr \/ TAbort
-            \/ TJobEnd \/ TMembers \/ TState \/ TEnd \/ Silent
+TNext == TReset \/ UNCHANGED kvars /\ (TEnqueue \/ TJobStart \/ TJobReject \/ TCompleteOk \/ TCompleteErr \/ TAbort
+            \/ TJobEnd \/ TMembers \/ TState \/ TEnd \/ Silent)
 
 Accepted ==
     IF TLCGet(1) = Len(Trace) THEN PrintT("TRACE-ACCEPTED")
